@@ -5,8 +5,8 @@ from scipy import sparse
 import tvlib, harness_acd, harness_glm, kernels
 import solverlib as sl
 
-GEN_SOURCES = ["skglm/solvers/anderson_cd.py", "skglm/solvers/group_bcd.py", "skglm/datafits/group.py"]
-EXTRA_TARGETS = ["Skel/MockACD.vo", "Skel/GlmFit.vo", "Lemmas/GlmStart.vo", "Gen/KernBCD.vo", "Gen/DfGroup.vo", "Gen/PenBlock.vo", "Gen/KernCD.vo", "Gen/SparseOps.vo", "Gen/ProxFuncs.vo"]
+GEN_SOURCES = ["skglm/solvers/anderson_cd.py", "skglm/solvers/group_bcd.py", "skglm/datafits/group.py", "skglm/solvers/prox_newton.py"]
+EXTRA_TARGETS = ["Skel/MockACD.vo", "Skel/GlmFit.vo", "Lemmas/GlmStart.vo", "Gen/KernBCD.vo", "Gen/DfGroup.vo", "Gen/PenBlock.vo", "Gen/KernCD.vo", "Gen/SparseOps.vo", "Gen/ProxFuncs.vo", "Gen/KernPN.vo", "Gen/PenSeparable.vo", "Gen/DfSingle.vo"]
 TRUSTED_BASE = [
     "Coq 8.16.1 kernel (coqc); vm_compute only in correspondence files",
     "axioms: Reals axioms + funext + classic (consistency theorem over R); the path / history theorems are axiom-free",
@@ -37,7 +37,8 @@ def correspondence(tier, rng):
                 distribution=dict(path_histories=len(pc), solve_runs=dist, glm_fit_histories=gdist),
                 distinct_nontrivial=len({c[0] for c in pc}) + sum(1 for c in cases if "w_init=None" not in c[0]),
                 samples=[dict(history=pc[0][0][:600])])
-    return kernels.add_bcd_kernel_corr(base, rng, 70 if tier == "quick" else 420, "C05k", only=["_bcd_epoch", "QuadraticGroup"])
+    base = kernels.add_bcd_kernel_corr(base, rng, 70 if tier == "quick" else 420, "C05k", only=["_bcd_epoch", "QuadraticGroup"])
+    return kernels.add_pn_kernel_corr(base, rng, 90 if tier == "quick" else 540, "C05p", only=["_backtrack_line_search", "_descent_direction"])
 
 
 def oracle(tier, rng, deep=False):
